@@ -19,6 +19,10 @@
      R <ncols> <type>* <nvals> (<carrier> <value>)* | token / err:<leaf>  SerializedValues::from_serializable
      T <ncols> <type>* <row carrier Tup[..]> <nrows> | ok:<decoded>:<failed to decode> / err:WrongColumnCount / err:col<i>:<leaf>
                                                 TypedRowIterator::new over a RawRowIterator of real rows
+     N <bt|bs|ht|hs> <ncols> (<hexname> <type>)* <nvals> (<hexkey> <carrier> <value>)*
+                                              | token / err:<leaf>   from_serializable of a BTreeMap / HashMap<String | &str, _>
+                                                row bound BY NAME; leaf = ValueMissingForColumn:<hex>, NoColumnWithName:<hex>,
+                                                TooManyValues or the leaf of the first column whose value does not serialise
      C (c<n> | a<n>)+                         | token / err:TooManyValues   SerializedValues::from_closure: n cells
                                                 through make_cell_writer / append_serialize_row of n values
    token = <res>/<count>/<iter>/<len>/<bytes or #fnv1a64>;  res = ok | err:<leaf> *)
@@ -499,6 +503,64 @@ let verdict case impl =
          else [] in
        conclude ~agrees:(mres = ires_n) ~model:mres fs
      | _ -> "error bad T case")
+  | "N" :: _mapkind :: ncols :: rest, [ires] ->
+    let ncols = int_of_string ("0x" ^ ncols) in
+    let (colf, rest) = take (2 * ncols) rest in
+    let rec cols_of = function n :: t :: r -> (bytes_of_hexstr n, type_of_string t) :: cols_of r | _ -> [] in
+    let cols = cols_of colf in
+    let kvs = (match rest with
+        | _nvals :: r ->
+          let rec go = function
+            | k :: c :: v :: r -> (bytes_of_hexstr k, (carrier_of_string c, kval_of_string v)) :: go r
+            | [] -> [] | _ -> raise (Parse "N vals") in
+          go r
+        | [] -> raise (Parse "N nvals")) in
+    let find nm = (try Some (List.assoc nm kvs) with Not_found -> None) in
+    let mres = (match from_typed_row cols (RMap kvs) with
+        | Ok s ->
+          let b = s.sv_bytes in
+          let len = list_len b 0 in
+          let it = (match sv_iter s with Some cells -> Printf.sprintf "%x" (list_len cells 0) | None -> "panic") in
+          Printf.sprintf "ok/%s/%s/%x/%s" (hex_of_n s.sv_count) it len (if len <= 128 then hexstr_of_bytes b else fnv b)
+        | Err (ValueMissingForColumn nm) -> "err:ValueMissingForColumn:" ^ hexstr_of_bytes nm
+        | Err (NoColumnWithName nm) -> "err:NoColumnWithName:" ^ hexstr_of_bytes nm
+        | Err RowTooManyValues -> "err:TooManyValues"
+        | Err (WrongColumnCount (_, _)) -> "err:WrongColumnCount"
+        | Err (ColumnSerializationFailed _) ->
+          (* the leaf of the first column (in column order) whose value does not serialise *)
+          let rec first = function
+            | [] -> "err:?"
+            | (nm, t) :: r ->
+              (match find nm with
+               | Some (k, v) -> (match snd (ser_buf k true t v []) with Some e -> "err:" ^ kerr_name e | None -> first r)
+               | None -> first r) in
+          first cols) in
+    let keys = List.map fst kvs and names = List.map fst cols in
+    let all_bound = List.for_all (fun nm -> List.mem nm keys) names in
+    let all_named = List.for_all (fun k -> List.mem k names) keys in
+    let bound = List.filter_map (fun (nm, t) -> match find nm with Some (k, v) -> Some (t, k, v) | None -> None) cols in
+    let all_well = List.for_all (fun (_, k, v) -> has_carrier k v) bound in
+    let all_fit = List.for_all (fun (t, k, v) -> val_fits k t v) bound in
+    let bad why = [{ why; known = false }] in
+    let fs = (match String.split_on_char '/' ires with
+        | ["ok"; cnt; it; _; _] ->
+          if cnt <> it then bad ("element_count " ^ cnt ^ " but iter().count() " ^ it)
+          else if cnt <> Printf.sprintf "%x" (List.length cols) then bad "count differs from the number of columns"
+          else if not all_bound then bad "a row without a value for some column was accepted"
+          else if not all_named then bad "a row with a key that names no column was accepted"
+          else if all_well then
+            List.concat (List.map (fun (t, k, v) -> match op_finding k t v "ok" with Some f -> [f] | None -> []) bound)
+          else []
+        | [e] ->
+          (match String.split_on_char ':' e with
+           | ["err"; "ValueMissingForColumn"; hx] when List.mem (bytes_of_hexstr hx) keys -> bad ("refused with " ^ e ^ " although the map has that key")
+           | ["err"; "NoColumnWithName"; hx] when List.mem (bytes_of_hexstr hx) names || not (List.mem (bytes_of_hexstr hx) keys) ->
+             bad ("refused with " ^ e ^ " although a column has that name (or no such key exists)")
+           | ["err"; leaf] when all_bound && all_named && all_well && all_fit && List.mem leaf refusal_names ->
+             bad ("a row of values of the column types, bound by name, was refused with " ^ e)
+           | _ -> [])
+        | _ -> []) in
+    conclude ~agrees:(mres = ires) ~model:mres fs
   | "C" :: parts, [ires] ->
     let sizes = List.map (fun p -> n_of_hex (String.sub p 1 (String.length p - 1))) parts in
     let total = List.fold_left (fun a p -> a + int_of_n p) 0 sizes in
